@@ -294,12 +294,12 @@ class Ctx:
         base = total // self.nworkers
         return max(1, base + (1 if self.worker < total % self.nworkers else 0))
 
-    def run(self, lines, case=None, timeout=None):
+    def run(self, lines, case=None, timeout=None, hang_inconclusive=False):
         """Run a driver script; a crash or hang becomes a Violation carrying the case."""
         try:
             outs = self.driver.run(lines, timeout=timeout)
         except DriverCrash as e:
-            if e.kind == "hang" and not self.hang_is_violation:
+            if e.kind == "hang" and (hang_inconclusive or not self.hang_is_violation):
                 # a watchdog hit is "inconclusive", never a violation, unless the property itself claims termination
                 self.stats.count("inconclusive_watchdog_timeouts")
                 raise Inconclusive()
